@@ -215,6 +215,7 @@ def _job_child2(job, rundir):
             data = f.read()
         with open(job["name"], "wb") as f:
             f.write(data)
+        os.utime(job["name"], (1700000000, 1700000000))
         res = []
         for arm in job["arms"]:
             res.append(_one_arm(job, arm))
